@@ -206,6 +206,18 @@ def grid(rng, quick):
                            "no_debug_ops": nd, "data_start": 0xC001}
                     pre = PREFIX if name in DATA_OPS else PREFIX + [("NOP", [])]
                     cases.append((pre + [(name, f)] + SUFFIX, cfg, name))
+    # ordering: a data statement after each kind of non-data operation (seed C09c: after a debugging operation only)
+    before = [("NOP", []), ("LABEL", [("SYMBOL", "ahead_")]), ("print", [("STRING", "x")]), ("println", [("STRING", "y")]),
+              ("print_reg", [("REGISTER", 1)]), ("__eval", [("STRING", "1")]), ("HALT", [])]
+    for b in before:
+        for name in sorted(DATA_OPS):
+            f = [baseline(k) for k in SIG[name]]
+            for mode in ["", "debug", "assemble", "preprocess"]:
+                for nd in ([False, True] if b[0] in DEBUG_OPS else [False]):
+                    cfg = {"mode": mode, "allow_interrupts": mode in ("assemble", "preprocess"),
+                           "no_debug_ops": nd, "data_start": 0xC001}
+                    for pre in (PREFIX, []):
+                        cases.append((pre + [b, (name, f)] + SUFFIX, cfg, name))
     return cases
 
 
